@@ -116,6 +116,17 @@ class C18Run(object):
         tor.info['onions/detached'] = lambda: ''
         self.setconfs = []
         tor.setconf_policy = lambda items: self.setconfs.append(items)
+        # fault: Tor runs on its default SOCKS port and rejects the question about it
+        self.dunder_fault = entries is None and ch.chance(1, 5, 'dunderfault')
+        if self.dunder_fault:
+            orig_getconf = tor.verbs['GETCONF']
+
+            def getconf(rest):
+                if rest.strip().lower() == '__socksport':
+                    sim.fault('tor-rejects-GETCONF-__SocksPort')
+                    return err(552, 'Unrecognized configuration key "__SocksPort"')
+                return orig_getconf(rest)
+            tor.verbs['GETCONF'] = getconf
         effective = list(entries) if entries is not None else [self.default_port]
         firsts = [e.split()[0] for e in effective]
         # what is asked for
@@ -224,6 +235,8 @@ class C18Run(object):
         for t in targets:
             if t not in allowed:
                 sim.fail('C18.wrong-endpoint', 'a client connected to %r, Tor has %r' % (t, allowed))
+        if self.dunder_fault:
+            return
         for rec in self.clients:
             if len(rec['result']) != 1:
                 sim.fail('C18.result-count', 'connect() of client %d fired %d times' % (rec['i'], len(rec['result'])))
@@ -261,6 +274,13 @@ class C18Run(object):
         requested = self.requested
         socks_setconfs = [items for items in self.setconfs if any(k.lower() == 'socksport' for k, v in items)]
         present = requested is None or requested in firsts or requested in effective
+        if self.dunder_fault:
+            # the request may fail; what it must not do is re-configure Tor, whose default listener is in use
+            if socks_setconfs:
+                sim.fail('C18.config-changed-after-failed-lookup',
+                         'Tor uses its default SOCKS port %s and rejected GETCONF __SocksPort; the client then sent SETCONF %r, which '
+                         'replaces that listener' % (self.default_port, socks_setconfs))
+            return
         if api == 'config-sync':
             if socks_setconfs:
                 sim.fail('C18.sync-lookup-changed-config', 'TorConfig.socks_endpoint() caused SETCONF %r' % (socks_setconfs,))
